@@ -211,7 +211,12 @@ Ref(a) ==
                  full == SelectIdx(chs, LAMBDA ch : Len(ch) = a.b, 1)
                  keep == IF r.tail # "none" \/ a.drop
                          THEN [j \in 1..Len(full) |-> chs[full[j]]] ELSE chs
-             IN RefRec([j \in 1..Len(keep) |-> ChunkEl(keep[j])], r.tail, "none")
+                 lastc == IF chs = <<>> THEN <<>> ELSE chs[Len(chs)]
+             \* a failing example inside a DROPPED incomplete batch: plain
+             \* iteration meets it (and raises), access by index never does -
+             \* the eager reading is ambiguous, no verdict is drawn
+             IN IF a.drop /\ Len(lastc) < a.b /\ ~AllOk(lastc) THEN RefRefuse("undef")
+                ELSE RefRec([j \in 1..Len(keep) |-> ChunkEl(keep[j])], r.tail, "none")
         [] a.op = "unbatch" -> RefUnbatch(r)
         [] a.op = "items"   -> RefItems(r)
         [] a.op = "tile"    ->
